@@ -422,11 +422,15 @@ pub fn history(cx: &mut Ctx, family: &str, maxops: u64) {
                             keys.push(k);
                         }
                     }
-                    let hint = match cx.rng.below(5) {
+                    let hint = match cx.rng.below(6) {
                         0 => 0,
                         1 => keys.len(),
                         2 => keys.len() / 2,
                         3 => keys.len() * 2 + 1,
+                        // a lower size hint at the top of the usize range (iter::repeat, a
+                        // saturated Chain): the documented capacity-overflow panic in both
+                        // profiles, before any item is pulled (D7)
+                        4 if cx.rng.chance(1, 3) => usize::MAX - cx.rng.below(3) as usize,
                         _ => cx.rng.below(40) as usize,
                     };
                     (keys, hint)
